@@ -5,8 +5,13 @@ import BV.C14.Warn
 namespace BV.C14.Driver
 open BV.Hex
 
+/-- "-" is the zero `time.Time`; so is its Unix value -62135596800 (the representation corner:
+    `time.Unix(-62135596800, 0).IsZero()` holds). -/
 def optInt? (s : String) : Option (Option Int) :=
-  if s == "-" then some none else s.toInt?.map some
+  if s == "-" then some none
+  else match s.toInt? with
+    | some v => if v == -62135596800 then some none else some (some v)
+    | none => none
 
 def parseDep? (s : String) : Option Dep :=
   match s.splitOn ":" with
@@ -42,6 +47,8 @@ inductive Q
   | cache (id : Nat)
   | warn (bit : Nat) (n : Int)
   | gate (id : Nat) (n : Int)
+  | hdr (id : Nat) (n : Int)
+  | burst (id : Nat) (n : Int)
   | mtp (n : Int)
   | clock (id : Nat) (n : Int)
   | gateExp (id : Nat) (n : Int) (mempool : Bool)
@@ -63,6 +70,8 @@ def parseQuery? (s : String) : Option Q :=
       else if kind == "a" then some (.active a n)
       else if kind == "w" then some (.warn a n)
       else if kind == "h" then some (.clock a n)
+      else if kind == "H" then some (.hdr a n)
+      else if kind == "P" then some (.burst a n)
       else if kind == "g" then some (.gate a n)
       else if kind == "G" then some (.gateExp a n false)
       else if kind == "M" then some (.gateExp a n true)
@@ -138,6 +147,33 @@ def runQuery (cx : Ctx) (q : Q) : Ctx × String :=
     | some [_] => (cx, "err")
     | some nd => (cx, toString (Spec.mtp nd))
     | none => (cx, "bad-op")
+  | .burst id n =>
+    -- 2× ThresholdState, 2× IsDeploymentActive, 2× CalcNextBlockVersion, concurrently on one tip:
+    -- whatever the interleaving, each answers as if asked alone
+    match nodeAt cx n with
+    | some nd =>
+      let (cx1, s1) := ask cx (.dep (.state id nd)) false
+      let (cx2, s2) := ask cx1 (.dep (.state id nd)) false
+      let (cx3, a1) := ask cx2 (.dep (.state id nd)) true
+      let (cx4, a2) := ask cx3 (.dep (.state id nd)) true
+      let (cx5, v1) := ask cx4 (.dep (.version nd)) false
+      let (cx6, v2) := ask cx5 (.dep (.version nd)) false
+      let toks := [s1, s2, a1, a2, v1, v2]
+      (cx6, if toks.contains "panic" then "panic" else "/".intercalate toks)
+    | none => (cx, "bad-op")
+  | .hdr id n =>
+    -- PastMedianTime, HasStarted, HasEnded, PastMedianTime on ONE header object
+    if n < 0 then (cx, "bad-op") else
+    match nodeAt cx n, cx.inst.cs[id]? with
+    | some nd, some (d, _) =>
+      let noParent := nd.length == 1
+      let m := if noParent then "err" else toString (Spec.mtp nd)
+      let a := if d.start.isNone then "1" else if noParent then "e"
+               else if Model.hasStarted d nd then "1" else "0"
+      let b := if d.timeout.isNone then "0" else if noParent then "e"
+               else if Model.hasEnded d nd then "1" else "0"
+      (cx, m ++ "/" ++ a ++ b)
+    | _, _ => (cx, "bad-op")
   | .clock id n =>
     if n < 0 then (cx, "bad-op") else
     match nodeAt cx n, cx.inst.cs[id]? with
@@ -205,6 +241,7 @@ def handle : List String → String
   -- independent instances: concurrently (par) or one after the other (seq) on the Go side; each
   -- answers as it would alone
   | ["seq", subs] => handleSubs subs
+  | ["seqp", subs] => handleSubs subs
   | ["par", subs] => handleSubs subs
   | ["str", n] =>
     match n with
